@@ -236,23 +236,23 @@ def make_tasks(ctx, cfgs, hists):
     rskinds = ["int", "generator", "none"]
     k = ctx.seed
     # univariate: every family x 3 random_state kinds x repetitions
-    for rep in range(ctx.pick(2, 6)):
+    for rep in range(ctx.pick(2, 10)):
         for fam in M.FAMILIES:
             for rs in rskinds:
                 k += 1
                 tasks.append(dict(task="ks", n_dim=1, cond=[None], sh=[0], families=[fam], rs=rs,
                                   seed=int(rng.integers(1, 2**31 - 1)),
-                                  n=nbig if (k % 7 == 0) else 100_000))
+                                  n=nbig if (k % 3 == 0) else 100_000))
     # joint: every 2-D configuration (x2 / x6), 3-D every 4th / all
     by_n = {n: [c for c in cfgs if c["n_dim"] == n] for n in (2, 3)}
-    for rep in range(ctx.pick(2, 6)):
+    for rep in range(ctx.pick(2, 12)):
         for cfg in by_n[2]:
             k += 1
-            tasks.append(dict(base(cfg), task="ks", rs=rskinds[k % 3], n=nbig if (k % 11 == 0) else 100_000))
-    for rep in range(ctx.pick(1, 2)):
+            tasks.append(dict(base(cfg), task="ks", rs=rskinds[k % 3], n=nbig if (k % 4 == 0) else 100_000))
+    for rep in range(ctx.pick(1, 4)):
         for cfg in by_n[3]:             # all 384 (a stride would alias with the shape-class enumeration)
             k += 1
-            tasks.append(dict(base(cfg), task="ks", rs=rskinds[k % 3], n=nbig if (k % 23 == 0) else 100_000))
+            tasks.append(dict(base(cfg), task="ks", rs=rskinds[k % 3], n=nbig if (k % 5 == 0) else 100_000))
     # shapes: sizes 1, 2, 1000, 1e5 (1e6) x random_state kinds, every family and a few models
     sizes = [1, 2, 1000, 100_000] + ([1_000_000] if not ctx.quick else [])
     for fam in M.FAMILIES:
@@ -335,9 +335,9 @@ def selftest(ctx):
 
 def run(ctx):
     import_virocon()
-    ctx.rule = ("univariate: 7 families x random_state {int, Generator, None} x 2/6 parameter draws, n = 1e5 (some "
-                "1e6 in thorough); joint: every TLC-enumerated 2-D configuration (x2/x6) and every 3-D configuration "
-                "(x1/x2), concretised over the 7 families; shapes for n in {1,2,1000,1e5(,1e6)} x 3 "
+    ctx.rule = ("univariate: 7 families x random_state {int, Generator, None} x 2/10 parameter draws, n = 1e5 (every "
+                "3rd-5th 1e6 in thorough); joint: every TLC-enumerated 2-D configuration (x2/x12) and every 3-D "
+                "configuration (x1/x4), concretised over the 7 families; shapes for n in {1,2,1000,1e5(,1e6)} x 3 "
                 "random_state kinds; every TLC-emitted draw history of length <= 3 over 5 random_state values x 2 "
                 "objects (x 2 sizes in thorough) replayed on a rotating pair out of 12 real objects (7 "
                 "distributions, 5 models). distinct = distinct (call, object/model, random_state, history); "
